@@ -108,20 +108,28 @@ def run(sc):
                 conn.feed(pdu(5, 0, q, deliver_body(b'\x05\x00\x03\x07\x02\x01ab', esm=0x40)))
             elif kind == 'stray-resp':
                 conn.feed(pdu(0x80000004, 0, q, b'id\x00'))
+            elif kind == 'unbind':
+                # the peer ends the session; the application keeps queueing while the ESME winds the session down
+                conn.feed(pdu(6, 0, q))
+                for _k in range(rng.randrange(1, 3)):
+                    s.at_rel(rng.choice((0.0005, 0.05, 0.2, 0.45, 0.6)), s.enqueue,
+                             SubmitSm(short_message='after unbind', log_id='w'))
             elif kind == 'burst':
                 conn.feed(pdu(5, 0, q, deliver_body()) + pdu(0x15, 0, q + 1) + pdu(5, 0, q + 2, deliver_body(b'yo')))
                 seqs['n'] += 2
         for _ in range(sc['n_in']):
             s.at(round(rng.uniform(0.1, sc['horizon']), 3) + 0.0001,
-                 inbound, rng.choice(('deliver', 'deliver', 'enq', 'unsupported', 'bad', 'seg', 'stray-resp', 'burst')))
+                 inbound, rng.choice(('deliver', 'deliver', 'enq', 'unsupported', 'bad', 'seg', 'stray-resp', 'burst', 'unbind')))
         # back-pressure episodes: the peer stops reading for a while, so drain() really suspends
         for _ in range(sc.get('stalls', 0)):
             t0 = round(rng.uniform(0.5, sc['horizon']), 3) + 0.0004
             s.at(t0, lambda: s.smsc.conns and s.smsc.conns[-1].stall(True))
             s.at(t0 + rng.choice((0.3, 1.0, 2.5)), lambda: [c.stall(False) for c in s.smsc.conns])
         for _ in range(sc['drops']):
-            s.at(round(rng.uniform(1.0, sc['horizon']), 3) + 0.0002,
-                 lambda: s.smsc.conns and rng.choice((s.smsc.conns[-1].feed_eof, s.smsc.conns[-1].reset))())
+            td = round(rng.uniform(1.0, sc['horizon']), 3) + 0.0002
+            s.at(td, lambda: s.smsc.conns and rng.choice((s.smsc.conns[-1].feed_eof, s.smsc.conns[-1].reset))())
+            # ... and the application queues a message while the session is winding down
+            s.at(td + rng.choice((0.0005, 0.05, 0.2, 0.45)), s.enqueue, SubmitSm(short_message='after drop', log_id='w'))
         s.at(sc['stop_at'], s.stop)
         s.run(sc['horizon'] + 100)
         ev = list(s.events)
